@@ -25,7 +25,10 @@ use crate::{
         qos::{DataReaderQos, QosKind},
         qos_policy::DurabilityQosPolicyKind,
         sample_info::{InstanceStateKind, SampleInfo, SampleStateKind, ViewStateKind},
-        status::{StatusKind, SubscriptionMatchedStatus},
+        status::{
+            RequestedDeadlineMissedStatus, RequestedIncompatibleQosStatus, SampleRejectedStatus,
+            StatusKind, SubscriptionMatchedStatus,
+        },
     },
     runtime::DdsRuntime,
     xtypes::{
@@ -372,6 +375,90 @@ impl DcpsDomainParticipant {
         data_reader
             .status_condition
             .remove_communication_state(StatusKind::SubscriptionMatched);
+        Ok(status)
+    }
+
+    #[tracing::instrument(skip(self))]
+    pub fn get_requested_deadline_missed_status(
+        &mut self,
+        subscriber_handle: &InstanceHandle,
+        data_reader_handle: &InstanceHandle,
+    ) -> DdsResult<RequestedDeadlineMissedStatus> {
+        let Some(subscriber) = self
+            .domain_participant
+            .user_defined_subscriber_list
+            .iter_mut()
+            .find(|x| &x.instance_handle == subscriber_handle)
+        else {
+            return Err(DdsError::AlreadyDeleted);
+        };
+        let Some(data_reader) = subscriber
+            .data_reader_list
+            .iter_mut()
+            .find(|x| &x.instance_handle == data_reader_handle)
+        else {
+            return Err(DdsError::AlreadyDeleted);
+        };
+        let status = data_reader.get_requested_deadline_missed_status();
+        data_reader
+            .status_condition
+            .remove_communication_state(StatusKind::RequestedDeadlineMissed);
+        Ok(status)
+    }
+
+    #[tracing::instrument(skip(self))]
+    pub fn get_requested_incompatible_qos_status(
+        &mut self,
+        subscriber_handle: &InstanceHandle,
+        data_reader_handle: &InstanceHandle,
+    ) -> DdsResult<RequestedIncompatibleQosStatus> {
+        let Some(subscriber) = self
+            .domain_participant
+            .user_defined_subscriber_list
+            .iter_mut()
+            .find(|x| &x.instance_handle == subscriber_handle)
+        else {
+            return Err(DdsError::AlreadyDeleted);
+        };
+        let Some(data_reader) = subscriber
+            .data_reader_list
+            .iter_mut()
+            .find(|x| &x.instance_handle == data_reader_handle)
+        else {
+            return Err(DdsError::AlreadyDeleted);
+        };
+        let status = data_reader.get_requested_incompatible_qos_status();
+        data_reader
+            .status_condition
+            .remove_communication_state(StatusKind::RequestedIncompatibleQos);
+        Ok(status)
+    }
+
+    #[tracing::instrument(skip(self))]
+    pub fn get_sample_rejected_status(
+        &mut self,
+        subscriber_handle: &InstanceHandle,
+        data_reader_handle: &InstanceHandle,
+    ) -> DdsResult<SampleRejectedStatus> {
+        let Some(subscriber) = self
+            .domain_participant
+            .user_defined_subscriber_list
+            .iter_mut()
+            .find(|x| &x.instance_handle == subscriber_handle)
+        else {
+            return Err(DdsError::AlreadyDeleted);
+        };
+        let Some(data_reader) = subscriber
+            .data_reader_list
+            .iter_mut()
+            .find(|x| &x.instance_handle == data_reader_handle)
+        else {
+            return Err(DdsError::AlreadyDeleted);
+        };
+        let status = data_reader.get_sample_rejected_status();
+        data_reader
+            .status_condition
+            .remove_communication_state(StatusKind::SampleRejected);
         Ok(status)
     }
 
